@@ -16,7 +16,13 @@ fn sub(src: &Ontology, root: u32, leaves: &[u32]) -> Result<Result<Ontology, Str
 }
 
 #[allow(clippy::too_many_arguments)]
-fn check_one(ctx: &mut Ctx, src: &Ontology, r: &RefOnt, mode: Mode, up: &BTreeMap<u32, BTreeMap<u32, usize>>, root: u32, leaves: &[u32], case: &dyn Fn() -> Value) {
+pub fn check_one(ctx: &mut Ctx, src: &Ontology, r: &RefOnt, mode: Mode, up: &BTreeMap<u32, BTreeMap<u32, usize>>, root: u32, leaves: &[u32], case: &dyn Fn() -> Value, custom_roots: Option<&BTreeSet<u32>>) {
+    let is_mod = |t: u32| -> bool {
+        match custom_roots {
+            Some(roots) => r.anc_incl(t).iter().any(|a| roots.contains(a)),
+            None => r.is_modifier(t, mode),
+        }
+    };
     ctx.exec();
     ctx.validated();
     ctx.transitions(1 + leaves.len() as u64);
@@ -97,7 +103,7 @@ fn check_one(ctx: &mut Ctx, src: &Ontology, r: &RefOnt, mode: Mode, up: &BTreeMa
     for k in 0..3 {
         let mut want: BTreeMap<u32, (String, Vec<u32>)> = BTreeMap::new();
         for (id, rec) in &r.recs[k] {
-            let keep = rec.terms.iter().any(|t| retained.contains(t) && !r.is_modifier(*t, mode));
+            let keep = rec.terms.iter().any(|t| retained.contains(t) && !is_mod(*t));
             if keep {
                 want.insert(*id, (rec.name.clone(), rec.terms.iter().copied().filter(|t| retained.contains(t)).collect()));
             }
@@ -213,7 +219,22 @@ pub fn run(ctx: &mut Ctx) {
             for &root in &ids {
                 for leaves in &collections {
                     let case = || json!({"family": what, "source": f.to_json(), "source_constructor": path, "root": root, "leaves": leaves});
-                    check_one(ctx, src, &r, *mode, &up, root, leaves, &case);
+                    check_one(ctx, src, &r, *mode, &up, root, leaves, &case, None);
+                }
+            }
+        }
+        // custom modifier roots installed through the public modifier_mut(): each free term in turn
+        if !has_flag && n <= 5 {
+            for &custom in ids.iter().filter(|i| **i != 1 && **i != 118) {
+                if let Ok(mut o) = drive::build(f, Mode::Minimal) {
+                    o.modifier_mut().insert(custom);
+                    let roots: BTreeSet<u32> = [custom].into_iter().collect();
+                    for &root in &ids {
+                        for leaves in collections.iter().filter(|l| l.len() <= 2) {
+                            let case = || json!({"family": what, "source": f.to_json(), "source_constructor": "Builder::build_minimal + modifier_mut()", "custom_modifier_roots": [custom], "root": root, "leaves": leaves});
+                            check_one(ctx, &o, &r, Mode::Minimal, &up, root, leaves, &case, Some(&roots));
+                        }
+                    }
                 }
             }
         }
